@@ -50,7 +50,7 @@ type Lowerer struct {
 	wraps  int
 	Err    error
 	// profile knobs
-	LinIte   bool
+	LinIte     bool
 	NoDefine   bool
 	LoSubst    bool
 	CoefReduce bool
